@@ -257,6 +257,7 @@ def name_case_set(case, word):
     xf, xc = (), ()
     if kind == "empty":
         field = None
+        const = const if pos == "const" else None  # really empty unless the case is about a constant name
     files = {}
     if pair:
         if pos == "field":
@@ -380,6 +381,8 @@ def random_set(rng, idx):
         if any(t["ns"] == ns and t["short"].lower() == short.lower() for t in types):
             short = "Ty%d" % i
 
+        bound = [16]  # upper bound of the serialized size in bytes (sum over both sections; generous)
+
         def section(union, nmin):
             lines = []
             names = set()
@@ -390,10 +393,13 @@ def random_set(rng, idx):
                     fn = "f%d_%d" % (i, k)
                 names.add(fn.lower())
                 r = rng.random()
-                cands = [t for t in types if t["kind"] not in ("service", "usvc")]
+                # a service is not a field type; a non-deprecated type cannot depend on a deprecated one
+                cands = [t for t in types if t["kind"] not in ("service", "usvc") and (kind == "deprecated" or t["kind"] != "deprecated")]
+                size, comp = 8, False
                 if r < 0.35 and cands:
                     d = rng.choice(cands)
                     ty = ".".join(d["ns"] + [d["short"]]) + ".1.0"
+                    size, comp = d["bound"] + 8, True
                 elif r < 0.45:
                     w = rng.randint(1, 64)
                     ty = rng.choice(["uint%d" % w, "int%d" % max(2, w), "truncated uint%d" % w])
@@ -401,9 +407,14 @@ def random_set(rng, idx):
                     ty = rng.choice(prims)
                 r = rng.random()
                 if r < 0.2:
-                    ty += "[<=%d]" % rng.choice([1, 2, 7, 255, 256, 300])
+                    n = rng.choice([1, 2, 3] if comp else [1, 2, 7, 255, 256, 300])
+                    ty += "[<=%d]" % n
+                    size = size * n + 4
                 elif r < 0.35:
-                    ty += "[%d]" % rng.choice([1, 2, 9, 64])
+                    n = rng.choice([1, 2] if comp else [1, 2, 9, 64])
+                    ty += "[%d]" % n
+                    size = size * n
+                bound[0] += size
                 lines.append("%s %s" % (ty, fn))
                 if not union and rng.random() < 0.2:
                     lines.append("void%d" % rng.randint(1, 64))
@@ -417,19 +428,20 @@ def random_set(rng, idx):
             return lines
 
         def close(sealed_p):
-            return "@sealed" if rng.random() < sealed_p else "@extent %d * 8" % rng.choice([5000000, 6000000])
+            return "@sealed" if rng.random() < sealed_p else "@extent %d * 8" % (2 * bound[0] + 64)
 
         if kind == "empty":
             body = ["@sealed"]
         elif kind in ("struct", "deprecated"):
             body = (["@deprecated"] if kind == "deprecated" else []) + section(False, 0) + [close(0.5)]
         elif kind in ("union", "dunion"):
-            body = ["@union"] + section(True, 2) + ["@sealed" if kind == "union" else "@extent 5000000 * 8"]
+            body = ["@union"] + section(True, 2)
+            body.append("@sealed" if kind == "union" else "@extent %d * 8" % (2 * bound[0] + 64))
         elif kind == "service":
             body = section(False, 0) + [close(0.5), "---"] + section(False, 0) + [close(0.5)]
         else:
             body = ["@union"] + section(True, 2) + [close(0.5), "---", "@union"] + section(True, 2) + [close(0.5)]
-        types.append({"ns": ns, "short": short, "kind": kind})
+        types.append({"ns": ns, "short": short, "kind": kind, "bound": 2 * bound[0] + 64})
         files["/".join(ns + ["%s.1.0.dsdl" % short])] = "\n".join(body) + "\n"
     roots_used = [r for r in roots if any(t["ns"][0] == r for t in types)]
     rng.shuffle(roots_used)
@@ -523,13 +535,30 @@ def list_files(top):
     return sorted(res)
 
 
+_SYS = {}
+
+
+def system_header(name, cxx):
+    """a header the toolchain resolves by itself (no output directory on the include path) belongs to the language / platform,
+    not to the generated artifacts: fast path = the standard's own list, otherwise ask the preprocessor"""
+    if name in C_STD_HEADERS or name in CXX_STD_HEADERS:
+        return True
+    key = (name, cxx)
+    if key not in _SYS:
+        argv = ["g++", "-x", "c++", "-std=c++20"] if cxx else ["gcc", "-x", "c", "-std=c11"]
+        p = subprocess.run(argv + ["-E", "-o", os.devnull, "-"], input="#include <%s>\n" % name, stdout=subprocess.PIPE, stderr=subprocess.STDOUT,
+                           text=True, cwd="/")
+        _SYS[key] = p.returncode == 0
+    return _SYS[key]
+
+
 def c_refs(out, rel, produced):
     """generated-artifact references of a C/C++ file: every #include that is not a header of the language's standard library"""
     txt = (out / rel).read_text(errors="replace")
     res = []
     for m in _INC.finditer(txt):
         name = m.group(2).strip()
-        if name in C_STD_HEADERS or name in CXX_STD_HEADERS:
+        if name not in produced and system_header(name, rel.endswith(".hpp")):
             continue
         cand = name
         if m.group(1) == '"':
@@ -654,11 +683,12 @@ def diagnostics(text, strip, limit=6):
     if not dl:
         return (lines[0] if lines else ""), []
     more, seen = [], {diag_class(dl[0])}
-    for ln in dl[1:]:
-        c = diag_class(ln)
-        if c not in seen and len(more) < limit and "[-W" in ln:  # warnings are independent of each other; hard errors cascade
-            seen.add(c)
-            more.append(ln)
+    if all("[-W" in ln for ln in dl):  # only warnings (made errors by -Werror): they are independent; a hard error cascades
+        for ln in dl[1:]:
+            c = diag_class(ln)
+            if c not in seen and len(more) < limit:
+                seen.add(c)
+                more.append(ln)
     return dl[0], more
 
 
@@ -785,9 +815,9 @@ def _process_set(job):
                         continue  # identical in every set (depends on the configuration only): compiled once, by the design probe
                     macros = None
                     mytools = tools
-                    if job.get("light") and rel.startswith(job["light"]):
-                        # dependants in the quick tier: every other tool, and only the C, oldest C++ and pmr configurations
-                        mytools = tools[::2] if cfg in ("c", "cpp14", "cpp17pmr") else []
+                    if job.get("light") and rel.startswith(job["light"][0]):
+                        # dependants: every other tool; in the quick tier only for the C, oldest C++ and pmr configurations
+                        mytools = tools[::2] if job["light"][1] is None or cfg in job["light"][1] else []
                     for tid, argv in mytools:
                         if tid.endswith("-use"):
                             # C constants are object-like macros: their literals are only diagnosed where they are expanded
@@ -795,7 +825,7 @@ def _process_set(job):
                                 macros = own_macros((out / rel).read_text(errors="replace"))
                             if not macros:
                                 continue
-                            tu.write_text('#include "%s"\nstatic inline void c06_use_(void)\n{\n%s}\n' % (rel, "".join("    (void) (%s);\n" % m for m in macros)))
+                            tu.write_text('#include "%s"\nvoid c06_use_(void);\nvoid c06_use_(void)\n{\n%s}\n' % (rel, "".join("    (void) (%s);\n" % m for m in macros)))
                         else:
                             tu.write_text('#include "%s"\n' % rel)
                         p = subprocess.run(argv + ["-fsyntax-only", "-I", str(out), str(tu)], stdout=subprocess.PIPE, stderr=subprocess.STDOUT,
@@ -879,7 +909,8 @@ class Campaign:
                     self.records.append({"id": len(self.records), "ev": "nop"})
             obs = {}
             prod = set()
-            unit = (obs, prod)
+            steps = []  # (root, files below the output directory after that run)
+            unit = (obs, prod, steps)
             for e in evs:
                 e = dict(e)
                 e["id"] = len(self.records)
@@ -889,6 +920,7 @@ class Campaign:
                     obs[to_s(e["file"])] = {to_s(i) for i in e["includes"]}
                 elif e["ev"] == "gen":
                     prod |= {to_s(p) for p in e["produced"]}
+                    steps.append((e["root"], {to_s(p) for p in e["produced"]}))
                 elif e["ev"] == "compile":
                     self.ncompiles += 1
                     self.ctx.count()
@@ -932,7 +964,7 @@ class Campaign:
                                    "generation of root namespace '%s' for %s (%s) raised %s" % (e["root"], cfg, omode, err), dict(case, root=e["root"])))
             elif clause == "inc.closure":
                 f = to_s(e["file"])
-                obs, prod = unit
+                obs, prod = unit[0], unit[1]
                 missing = sorted(i for i in obs.get(f, ()) if i not in prod)
                 kind = "support" if any("support" in m for m in missing) else "type"
                 self.found.append((clause, lang, omode, "refers to a %s file that is not produced" % kind,
@@ -983,16 +1015,30 @@ class Campaign:
             self.ctx.violation("C06|%s|%s|%s|%s" % (clause, target, m, dc), what, case)
 
 
+design_supgen = {}  # target -> observed SupportGen (set by run())
+
+
 def compare_prediction(ctx, camp, sset, cfgs, omodes):
-    """I-layer prediction of the references vs. what was observed (P is judged elsewhere): difference = drift"""
+    """I-layer prediction (produced files after every Generate step, references of every file) vs. what was observed
+    (P is judged elsewhere): difference = drift"""
     world = sset["meta"]["world"]
     for cfg in cfgs:
         for omode in omodes:
             key = (sset["id"], cfg, omode)
             if key not in camp.observed or omode not in ("ser", "omit"):
                 continue
-            obs, prod = camp.observed[key]
+            obs, prod, steps = camp.observed[key]
             pred = predicted_refs(world, cfg, omode == "omit")
+            # after every Generate(root, omit) step: the files the model says exist by then
+            support = {"c": "nunavut/support/serialization.h", "cpp": "nunavut/support/serialization.hpp", "py": "nunavut_support.py"}[CFGS[cfg][0]]
+            sup_gen = omode != "omit" or design_supgen.get(CFGS[cfg][0]) == "always"
+            done = set()
+            for root, files in steps:
+                done.add(root)
+                exp_files = {f for f in pred if f.split("/")[0] in done} | ({support} if sup_gen else set())
+                if files != exp_files:
+                    return "%s %s %s: after generating %s the output directory holds %s, the model predicts %s" % (
+                        sset["id"], cfg, omode, sorted(done), sorted(files), sorted(exp_files))
             for f, exp in pred.items():
                 got = obs.get(f)
                 if got is None:
@@ -1110,11 +1156,11 @@ def select_name_cases(ctx, cases):
     positions the kind-specific templates treat differently with class and word rotating - independent of the seed."""
     cases = sorted(cases, key=lambda c: (c["pos"], c["cls"], c["w"], c["kind"]))
     if not ctx.quick:
-        # thorough: the whole product for the first two words of every class, further words with the kind rotating
+        # thorough: the whole product for the first word of every class, further words with the kind rotating
         res, n = [], 0
         by = {}
         for c in cases:
-            if c["w"] <= 2:
+            if c["w"] <= 1:
                 res.append(c)
             else:
                 by.setdefault((c["pos"], c["cls"], c["w"]), []).append(c)
@@ -1154,7 +1200,7 @@ def word_for(case):
 
 
 def mkjob(ctx, sset, units, tools, compile_=True, keep=False, light=None):
-    """light: path prefix of files that are compiled with every other tool of the matrix only (dependants, quick tier)"""
+    """light: (path prefix, configurations or None) of files that are compiled with every other tool of the matrix only (dependants)"""
     return {"set": sset, "dir": str(ctx.scratch / "sets" / sset["id"]), "units": units, "tools": tools, "compile": compile_, "keep": keep,
             "light": light}
 
@@ -1189,6 +1235,7 @@ def run(ctx):
     # ---- 1. the bounded design, with the design parameters observed from the real generator
     design = observe_design(ctx, tools)
     ctx.cov["observed_design"] = design
+    design_supgen.update({k: v["SupportGen"] for k, v in design.items()})
     predicted = run_models(ctx, design)
 
     camp = Campaign(ctx)
@@ -1208,7 +1255,7 @@ def run(ctx):
         sset = world_set(w, i)
         cfgs = ALL_CFGS if n % ctx.pick(13, 5) == 0 else ["c", "cpp17", "py"]
         modes = omodes
-        do_compile = n % ctx.pick(8, 3) == 0
+        do_compile = n % ctx.pick(8, 8) == 0
         wsets.append((sset, cfgs, modes))
         wjobs.append(mkjob(ctx, sset, [(c, m) for c in cfgs for m in modes], tools, compile_=do_compile))
     for (sset, cfgs, modes), r in zip(wsets, run_jobs(ctx, wjobs)):
@@ -1244,7 +1291,14 @@ def run(ctx):
             continue
         seen.add(sset["id"])
         nsets.append(sset)
-        njobs.append(mkjob(ctx, sset, [(cfg, m) for cfg in ALL_CFGS for m in omodes], tools, light="uroot/" if ctx.quick else None))
+        njobs.append(mkjob(ctx, sset, [(cfg, m) for cfg in ALL_CFGS for m in omodes], tools,
+                           light=("uroot/", ("c", "cpp14", "cpp17pmr") if ctx.quick else None)))
+    # two distinct DSDL names that the C / C++ stropping folds onto one identifier: excluded by the property (Includes!Folded) for those
+    # targets, judged as usual for Python (if_ and _if stay distinct)
+    fold = {"id": "n-folded", "roots": ["hroot"], "files": {"hroot/Host.1.0.dsdl": "uint8 if\nuint16 _if\n@sealed\n"},
+            "meta": {"src": "names", "pos": "field", "cls": "folded", "kind": "struct", "word": "if/_if", "key": "field|folded|struct|if/_if"}}
+    nsets.append(fold)
+    njobs.append(mkjob(ctx, fold, [(cfg, m) for cfg in ("c", "cpp14", "py") for m in omodes], tools))
     for sset, r in zip(nsets, run_jobs(ctx, njobs)):
         camp.add(sset, r)
         if r["accepted"]:
@@ -1257,7 +1311,7 @@ def run(ctx):
     camp.judge()
 
     # ---- 4. code -> spec: larger random sets and the trees shipped in the repository
-    rsets = [random_set(ctx.rng, i) for i in range(ctx.pick(8, 120))]
+    rsets = [random_set(ctx.rng, i) for i in range(ctx.pick(8, 50))]
     usets = repo_sets()
     rjobs = [mkjob(ctx, s, [(cfg, m) for cfg in ALL_CFGS for m in omodes], tools) for s in rsets]
     rjobs += [mkjob(ctx, s, [(cfg, m) for cfg in (ALL_CFGS if not ctx.quick else ["c", "cpp14", "cpp17pmr", "py"]) for m in omodes], tools) for s in usets]
